@@ -211,6 +211,7 @@ class patched_socket:
         self.hub = hub
         self.fragment = fragment
         self.pending = b""
+        self.stall = self.dry = self.nsplit = 0
 
     def _read(self, n=256):
         hub = self.hub
@@ -222,8 +223,17 @@ class patched_socket:
                 self.pending, self.pending_ev = line, ev
             if not self.pending:
                 return None                      # no data yet
+            if self.stall > 0:                   # the second segment of a split line is late: nothing to read yet
+                self.stall -= 1
+                return None
             k = max(1, len(self.pending) // 2) if self.fragment and len(self.pending) > 3 else len(self.pending)
             out, self.pending = self.pending[:k], self.pending[k:]
+            if self.pending:
+                # every other split line: one empty read and one select() time-out before the rest arrives
+                # (added after seed C16e: a reader that gave up the fragment it had buffered)
+                self.nsplit += 1
+                if self.nsplit % 2 == 0:
+                    self.stall, self.dry = 1, 1
             if not self.pending:                 # the line is complete on the host's side only now
                 hub.events.append(self.pending_ev)
                 if self.pending_ev["k"] == "rel":
@@ -237,6 +247,9 @@ class patched_socket:
     def _select(self, timeout=None):
         hub = self.hub
         with hub.cv:
+            if self.dry > 0:                     # a genuine time-out while the rest of a line is still on its way
+                self.dry -= 1
+                return []
             if not self.pending and not hub.released and not hub.closed:
                 hub.cv.wait(min(timeout or 0.01, 0.01))
             return [("ready", 1)] if (self.pending or hub.released or hub.closed) else []
